@@ -129,6 +129,8 @@ type Project struct {
 	Globs []string `json:"globs"`
 	// Extensions: names of routes-template extension hooks the configuration fills with a comment line
 	Extensions []string `json:"extensions,omitempty"`
+	// ExtRev is written into the extension files' content (same relative paths, other content)
+	ExtRev string `json:"ext_rev,omitempty"`
 }
 
 // ---------------------------------------------------------------- ground truth
